@@ -850,6 +850,12 @@ def restore_unconditional(ctx, rep, clause="S2"):
                 srcs = {U(y) for y in ast.walk(nd.ast.value) if isinstance(y, ast.Name)} | {U(deref(m, y)) for y in ast.walk(nd.ast.value) if isinstance(y, ast.Name)}
                 srcs |= {U(y) for y in ast.walk(deref(m, nd.ast.value)) if isinstance(y, (ast.Subscript, ast.Call))}
                 bad = [a for a in dom_guard(ctx, m, nd.id) if a[0] == "truth" and a[1] in srcs and a[2] is True]
+                # ... nor replaced by a default when it is falsy: `<saved value> or <default>` (and the conditional-expression form of it)
+                v_ = deref(m, nd.ast.value)
+                if isinstance(v_, ast.BoolOp) and isinstance(v_.op, ast.Or) and from_state(v_.values[0], 0):
+                    bad.append(("truth", U(v_.values[0]), True))
+                if isinstance(v_, ast.IfExp) and from_state(v_.test, 0) and not isinstance(v_.test, ast.Compare):
+                    bad.append(("truth", U(v_.test), True))
                 rep.put(not bad, clause, "guarded_by", f"{c.name}.{mname}: `{U(nd.ast.targets[0])}` is restored whatever the saved value is", m, nd.ast, "",
                         f"the store is guarded by the truth of the saved value ({[a[1] for a in bad]}): a saved empty list / 0 does not overwrite what the fresh "
                         "object was constructed with - e.g. the exhausted queue of initial configurations comes back filled with the default one")
